@@ -274,6 +274,18 @@ pub fn catalogue() -> Vec<(String, &'static str)> {
         v.push((format!("<r>&#x{};</r>", cp), "hex char ref to non-Char"));
         v.push((format!("<!DOCTYPE r [<!ENTITY e '&#x{};'>]><r/>", cp), "hex char ref to non-Char in entity value"));
     }
+    // a declaration that is not binding (the entity, or the attribute, was declared before) must still be well-formed:
+    // the ill-formed value hides behind an earlier declaration of the same name
+    for bad in ["&#0;", "&#xFFFE;", "&#xD800;", "&#x110000;", "&#55296;", "%p;", "a%p;b", "&", "&#;", "&e", "<"] {
+        for (first, what) in [("<!ENTITY e 'a'>", "entity"), ("<!ENTITY e SYSTEM 's'>", "external entity")] {
+            v.push((format!("<!DOCTYPE r [{}<!ENTITY e '{}'>]><r/>", first, bad), if what == "entity" { "ill-formed value in a redeclared entity" } else { "ill-formed value in an entity redeclared after an external one" }));
+            v.push((format!("<!DOCTYPE r [{}<!ENTITY e '{}'>]><r>&e;</r>", first, bad), "ill-formed value in a redeclared entity that is referenced"));
+        }
+        if bad != "%p;" && bad != "a%p;b" {
+            v.push((format!("<!DOCTYPE r [<!ATTLIST r a CDATA 'v'><!ATTLIST r a CDATA '{}'>]><r/>", bad), "ill-formed default in a repeated attribute definition"));
+            v.push((format!("<!DOCTYPE r [<!ATTLIST r a CDATA 'v' a CDATA '{}'>]><r/>", bad), "ill-formed default in a repeated attribute definition of one ATTLIST"));
+        }
+    }
     let mut add = |s: &str, why: &'static str| v.push((s.to_string(), why));
     add("<r>&#;</r>", "empty char ref");
     add("<r>&#x;</r>", "empty hex char ref");
